@@ -221,11 +221,207 @@ pub fn advice_line(rec: &Rec, prover: &MockProver<F>) -> String {
     mzkh::join(&vals)
 }
 
+/// Copy-constraint classes over absolute cells ("a<col>", row) / ("f<col>", row) / ("i..").
+pub struct Classes {
+    parent: Vec<usize>,
+    index: std::collections::HashMap<(String, usize), usize>,
+    cells: Vec<(String, usize)>,
+}
+
+impl Classes {
+    pub fn new(rec: &Rec) -> Self {
+        let mut c = Classes { parent: vec![], index: Default::default(), cells: vec![] };
+        for ((c1, r1), (c2, r2)) in &rec.copies {
+            let a = c.id(crate::rec::col_key(c1), *r1);
+            let b = c.id(crate::rec::col_key(c2), *r2);
+            let (ra, rb) = (c.find(a), c.find(b));
+            if ra != rb {
+                c.parent[ra] = rb;
+            }
+        }
+        c
+    }
+    fn id(&mut self, key: String, row: usize) -> usize {
+        if let Some(i) = self.index.get(&(key.clone(), row)) {
+            return *i;
+        }
+        let i = self.parent.len();
+        self.parent.push(i);
+        self.index.insert((key.clone(), row), i);
+        self.cells.push((key, row));
+        i
+    }
+    fn find(&mut self, mut a: usize) -> usize {
+        while self.parent[a] != a {
+            self.parent[a] = self.parent[self.parent[a]];
+            a = self.parent[a];
+        }
+        a
+    }
+    /// All cells in the class of an advice cell (including itself).
+    pub fn class_of(&mut self, col: usize, row: usize) -> Vec<(String, usize)> {
+        let key = (format!("a{col}"), row);
+        match self.index.get(&key).copied() {
+            None => vec![key],
+            Some(i) => {
+                let r = self.find(i);
+                let n = self.parent.len();
+                (0..n).filter(|j| self.find(*j) == r).map(|j| self.cells[j].clone()).collect()
+            }
+        }
+    }
+}
+
+fn two_pow(j: u32) -> F {
+    let mut x = F::from(1u64);
+    for _ in 0..j {
+        x = x + x;
+    }
+    x
+}
+
+/// Fault values for an honest value `v`: +1, -1, 0, 1-v, v+2^j, random.
+pub fn fault_values(v: F, rng: &mut impl rand::Rng) -> Vec<(String, F)> {
+    use ff::Field;
+    let j = [1u32, 7, 8, 16, 64, 128, 253, 254][rng.gen_range(0..8)];
+    vec![
+        ("+1".into(), v + F::ONE),
+        ("-1".into(), v - F::ONE),
+        ("0".into(), F::ZERO),
+        ("1-v".into(), F::ONE - v),
+        (format!("+2^{j}"), v + two_pow(j)),
+        ("rand".into(), F::random(rng)),
+    ]
+}
+
+/// Fault injection on the table of the real MockProver (H2): every advice cell that belongs to
+/// the operation under test x every fault value, (a) the cell alone, (b) the cell together with
+/// its whole copy class. The forged table must be rejected unless all outputs are unchanged.
+/// Each examined table is also sent to the model (`check` request): the model's constraint
+/// evaluator must agree with the real verdict.
+pub fn tamper_case(ctx: &mut Ctx, case: &Case, rec: &Rec, honest: MockRun, budget: usize) {
+    use rand::seq::SliceRandom;
+    let Some(mut prover) = honest.prover else { return };
+    let hdr = case.header();
+    // honest table: model must accept it as well
+    ctx.case(&format!("check:{}", case.kind), true, &format!("check {hdr} ; {}", advice_line(rec, &prover)), "1");
+    // first region that belongs to the operation under test
+    let prefix = Case { ops: case.ops[..case.first_op].to_vec(), inputs: case.inputs.clone(), ..case.clone() };
+    let first_region = match record_prefix(&prefix) {
+        Some(n) => n,
+        None => return,
+    };
+    let cells = rec.advice_cells();
+    let mut classes = Classes::new(rec);
+    let canon = rec.canon();
+    let region_of = |key: &str, row: usize| -> Option<usize> { canon.owner.get(&(key.to_string(), row)).map(|x| x.0) };
+    let honest_vals: Vec<Option<F>> = honest.outcome.vars.iter().map(|v| v.4).collect();
+    // absolute coordinates of the output variables
+    let var_cells: Vec<Option<(usize, usize)>> = honest
+        .outcome
+        .vars
+        .iter()
+        .map(|(_, k, o, key, _)| {
+            if !key.starts_with('a') {
+                return None;
+            }
+            let col: usize = key[1..].parse().unwrap();
+            rec.regions.get(*k).map(|r| (col, r.start + *o))
+        })
+        .collect();
+    let mut rng = ctx.rng(&format!("tamper:{}", case_key(case)));
+    let mut targets: Vec<usize> = (0..cells.len()).filter(|i| cells[*i].0 .0 >= first_region).collect();
+    targets.shuffle(&mut rng);
+    let mut done = 0usize;
+    for ti in targets {
+        if done >= budget {
+            break;
+        }
+        let ((k, o, c), (col, row), _) = cells[ti];
+        let v = match prover.advice()[col][row] {
+            CellValue::Assigned(v) => v,
+            _ => continue,
+        };
+        let class = classes.class_of(col, row);
+        let class_ok = class.iter().all(|(key, r)| {
+            key.starts_with('a') && region_of(key, *r).map(|x| x >= first_region).unwrap_or(false)
+        });
+        let mut faults = fault_values(v, &mut rng);
+        faults.shuffle(&mut rng);
+        for (fname, fv) in faults {
+            if fv == v || done >= budget {
+                continue;
+            }
+            for mode in ["cell", "class"] {
+                if mode == "class" && (!class_ok || class.len() < 2) {
+                    continue;
+                }
+                let group: Vec<(usize, usize)> = if mode == "cell" {
+                    vec![(col, row)]
+                } else {
+                    class.iter().map(|(key, r)| (key[1..].parse::<usize>().unwrap(), *r)).collect()
+                };
+                let saved: Vec<CellValue<F>> = group.iter().map(|(c, r)| prover.advice()[*c][*r]).collect();
+                for (c2, r2) in &group {
+                    prover.verif_advice_mut()[*c2][*r2] = CellValue::Assigned(fv);
+                }
+                let verdict = catch(|| prover.verify().is_ok()).unwrap_or(false);
+                done += 1;
+                ctx.count(&format!("tamper:{mode}:{}", if verdict { "accepted" } else { "rejected" }));
+                ctx.case(
+                    &format!("check:{}", case.kind),
+                    true,
+                    &format!("check {hdr} ; {}", advice_line(rec, &prover)),
+                    if verdict { "1" } else { "0" },
+                );
+                if verdict && case.deterministic {
+                    // outputs as the forged table holds them
+                    let changed: Vec<usize> = var_cells
+                        .iter()
+                        .enumerate()
+                        .filter(|(i, vc)| match (vc, honest_vals[*i]) {
+                            (Some((c, r)), Some(hv)) => {
+                                matches!(prover.advice()[*c][*r], CellValue::Assigned(x) if x != hv)
+                            }
+                            _ => false,
+                        })
+                        .map(|(i, _)| i)
+                        .filter(|i| *i >= nb_input_vars(case))
+                        .collect();
+                    if !changed.is_empty() {
+                        ctx.oracle_fail(
+                            &format!("forged:{}:{k}.{o}.a{c}:{mode}", case.header()),
+                            "MockProver accepts a forged advice table whose outputs differ from the operation's definition",
+                            json!({"case": case_key(case), "cell": format!("{k}.{o}.a{c}"), "mode": mode,
+                                   "fault": fname, "honest": fe_hex(&v), "forged": fe_hex(&fv),
+                                   "changed_vars": changed}),
+                        );
+                    }
+                }
+                for ((c2, r2), sv) in group.iter().zip(saved) {
+                    prover.verif_advice_mut()[*c2][*r2] = sv;
+                }
+            }
+        }
+    }
+}
+
+/// Number of variables produced by the input-preparation prefix.
+fn nb_input_vars(case: &Case) -> usize {
+    let prefix = Case { ops: case.ops[..case.first_op].to_vec(), inputs: case.inputs.clone(), ..case.clone() };
+    record(&prefix).map(|(_, o)| o.vars.len()).unwrap_or(0)
+}
+
+fn record_prefix(prefix: &Case) -> Option<usize> {
+    record(prefix).ok().map(|(rec, _)| rec.regions.iter().filter(|r| r.name != "pow2range table").count())
+}
+
 pub fn run(ctx: &mut Ctx) {
     let cases = gen::cases(ctx);
+    let budget = if ctx.quick() { 6 } else if ctx.thorough() { 40 } else { 200 };
     for case in &cases {
-        let Some((rec, out)) = run_case(ctx, case, true) else { continue };
+        let Some((rec, _out)) = run_case(ctx, case, true) else { continue };
         let Some(honest) = honest_accept(ctx, case, &rec) else { continue };
-        let _ = (out, honest);
+        tamper_case(ctx, case, &rec, honest, budget);
     }
 }
